@@ -140,7 +140,7 @@ type boundedResult struct {
 	output   string
 }
 
-func runBounded(prop, tier, repo, verif string) []boundedResult {
+func runBounded(prop, tier, repo, verif, outRoot string) []boundedResult {
 	var out []boundedResult
 	for _, e := range readReplayIndex(verif) {
 		if !e.Bounded || e.Property != prop {
@@ -149,7 +149,7 @@ func runBounded(prop, tier, repo, verif string) []boundedResult {
 		if tier == "quick" && e.Tier != "quick" {
 			continue
 		}
-		o := runTemplate(e, repo, verif, filepath.Join(verif, "out", "replay", prop), "bounded_"+e.Name, nil)
+		o := runTemplate(e, repo, verif, filepath.Join(outRoot, "out", "replay", prop), "bounded_"+e.Name, nil)
 		out = append(out, boundedResult{Name: e.Name, Bound: e.Bound, Cases: o.cases, Failures: o.failures, Cmd: o.cmd, Ran: o.ran, failed: o.failed, output: o.output})
 	}
 	return out
